@@ -274,8 +274,9 @@ EXTRA = {
            'around the target).',
     'C03': 'Also: in-place edits by a step AFTER the dumper must not reach the written file.',
     'C04': 'Also: the failing row lies in a resource that a later delete_resource / concatenate / join removes or behind a duplicate twin; '
-           'a bare CastError with an empty error list; upstream failures inside parallelize under 30/300 cooperative schedules '
-           '(known finding C04-parallelize-upstream-failure: only that exact deviation is accepted).',
+           'a bare CastError with an empty error list; upstream failures inside parallelize: Parallelize.tla has the failing upstream (FailAt), '
+           'TLC checks UpstreamFailureSurfaces + Termination and refutes the pinned producer (SwallowUpstream); 30/300 cooperative schedules with a '
+           'failing upstream iterator are validated by ParallelizeTrace.tla (the run raises that failure, nobody is left behind) - repaired by fix b5610a4.',
     'C05': 'Also: the counts every dumper reports (per resource, package total, stats) incl. resources that are empty at the dumper; '
            'a failed read-back is a violation; failed runs (source / later step raising at row k or at the end) must not leave an '
            'incomplete stream published under the final name of stream / checkpoint.',
@@ -293,7 +294,7 @@ EXTRA = {
     'C15': 'Also several resources: exported cases and two-step programs (a field added to every resource by add_field / add_computed_field, '
            'then renamed / deleted / retyped in some) under every resource-selector form; every resource must keep row keys = field list.',
     'C16': 'Also: update_resource(name=, path=) rename family, sources() with colliding names, duplicate followed by a step restricted to one twin.',
-    'C18': 'Spec -> code: complete behaviours of the specification (TLC -simulate over ParallelizeSim.tla, 358/~5000 distinct scripts) are granted '
+    'C18': 'The spec also carries a failing upstream iterator (FailAt; scripts and model runs with FailAt > 0). Spec -> code: complete behaviours of the specification (TLC -simulate over ParallelizeSim.tla, 358/~5000 distinct scripts) are granted '
            'operation by operation to the same unmodified bodies and the projected queue state is compared with the spec state after '
            'every step; row_func failures (Fail constant); real multiprocessing runs with a queue recorder validated by ParallelizeTrace.',
     'C20': 'Array/object cells carry falsy nested items (0, False, "", [], {}, null) and the empty array / object.',
